@@ -38,4 +38,5 @@ ShapeConfs == WithGC({
 AliasConfs == {
   [Base EXCEPT !.cp = Two(CC("M3", "t1", {}, FALSE, "p"), CC("M4", "t2", {}, FALSE, "p/")),
                !.ckeys = {"p", "p/"}, !.faults = FALSE] }
+GenConfs == LockConfs \cup ShapeConfs
 =============================================================================
